@@ -67,9 +67,12 @@ func (sb *SelBase) SetContextRecursive(ctx interface{}) {
 	sb.setContextRecursive(ctx, map[*Fragment]bool{})
 }
 
-// The active map holds the fragments currently being walked so that
-// fragments that refer to each other do not recurse without end.
-func (sb *SelBase) setContextRecursive(ctx interface{}, active map[*Fragment]bool) {
+// The visited map holds the fragments already walked. A fragment is shared
+// by all the spreads of it so its fields can hold one context only, that of
+// the first spread reached. Walking it once also keeps fragments that refer
+// to each other from recursing without end and fragments that are spread
+// many times from being walked once for every path that leads to them.
+func (sb *SelBase) setContextRecursive(ctx interface{}, visited map[*Fragment]bool) {
 	for _, sel := range sb.Sels {
 		switch ts := sel.(type) {
 		case *Field:
@@ -77,14 +80,13 @@ func (sb *SelBase) setContextRecursive(ctx interface{}, active map[*Fragment]boo
 				ctx = n.Nest(ts)
 			}
 			ts.Context = ctx
-			ts.setContextRecursive(ts.Context, active)
+			ts.setContextRecursive(ts.Context, visited)
 		case *Inline:
-			ts.setContextRecursive(ctx, active)
+			ts.setContextRecursive(ctx, visited)
 		case *FragRef:
-			if ts.Fragment != nil && !active[ts.Fragment] {
-				active[ts.Fragment] = true
-				ts.Fragment.setContextRecursive(ctx, active)
-				delete(active, ts.Fragment)
+			if ts.Fragment != nil && !visited[ts.Fragment] {
+				visited[ts.Fragment] = true
+				ts.Fragment.setContextRecursive(ctx, visited)
 			}
 		}
 	}
